@@ -12,22 +12,26 @@ VARIABLE c
 
 RECURSIVE Cum(_, _)
 Cum(szs, i) == IF i = 0 THEN 0 ELSE szs[i] + Cum(szs, i - 1)
-BudgetsRaw(szs) == {0, 1, SoftLimit + 7} \cup UNION {{Cum(szs, i) - 1, Cum(szs, i), Cum(szs, i) + 1, (Cum(szs, i) * 10) \div 11, (Cum(szs, i) * 10) \div 11 + 1} : i \in 1..Len(szs)}
+BudgetsRaw(szs) == {0, 1, SoftLimit + 7} \cup UNION {{Cum(szs, i) - 1, Cum(szs, i), (Cum(szs, i) * 10) \div 11, (Cum(szs, i) * 10) \div 11 + 1} : i \in 1..Len(szs)}
 Budgets(szs) == {b \in BudgetsRaw(szs) : b >= 0}
 
 AccReqs == {[known |-> FALSE, origin |-> 0, limit |-> Top(N), bytes |-> 1000]}
            \cup {[known |-> TRUE, origin |-> o, limit |-> l, bytes |-> b] : o \in 0..Top(N), l \in 0..Top(N), b \in Budgets(AccSizes(W))}
 
-AcctLists == {<<a>> : a \in 0..N} \cup {<<1, 3>>, <<1, 4>>, <<4, 1>>, <<3, 4>>, <<4, 3>>, <<1, 2>>, <<2, 4>>, <<0, 4>>, <<4, 0>>, <<4, 4>>}
-             \cup {<<1, 2, 3>>, <<3, 0, 2, 1>>, << >>}
+WithSt == {a \in 1..N : Len(W.acc[a].st) > 0}
+NoSt == {a \in 0..N : a = 0 \/ Len(W.acc[a].st) = 0}
+AcctLists == {<<a>> : a \in 0..N} \cup {<<a, b>> : a, b \in WithSt}
+             \cup {<<a, b>> : a \in WithSt, b \in NoSt} \cup {<<b, a>> : a \in WithSt, b \in NoSt}
+             \cup {<<a, b, a>> : a, b \in WithSt} \cup {<< >>}
 Concat(as) == IF Len(as) = 0 THEN << >> ELSE IF Len(as) = 1 THEN Slots(W, as[1])
               ELSE IF Len(as) = 2 THEN Slots(W, as[1]) \o Slots(W, as[2])
-              ELSE IF Len(as) = 3 THEN Slots(W, as[1]) \o Slots(W, as[2]) \o Slots(W, as[3])
-              ELSE Slots(W, as[1]) \o Slots(W, as[2]) \o Slots(W, as[3]) \o Slots(W, as[4])
+              ELSE Slots(W, as[1]) \o Slots(W, as[2]) \o Slots(W, as[3])
 FirstN(as) == IF Len(as) = 0 THEN 0 ELSE Len(Slots(W, as[1]))
+(* origin/limit positions: all of them for single-account requests, a few otherwise *)
+Marks(as) == IF Len(as) <= 1 THEN (-1)..Top(FirstN(as)) ELSE {-1, 0, 2, 3, Top(FirstN(as))}
 StorReqs == {[known |-> FALSE, accounts |-> <<1>>, origin |-> -1, limit |-> -1, bytes |-> 1000]}
             \cup UNION {{[known |-> TRUE, accounts |-> as, origin |-> o, limit |-> l, bytes |-> b] :
-                          o \in (-1)..Top(FirstN(as)), l \in (-1)..Top(FirstN(as)), b \in Budgets(Concat(as))} : as \in AcctLists}
+                          o \in Marks(as), l \in Marks(as), b \in Budgets(Concat(as))} : as \in AcctLists}
 
 NC == Len(W.codes)
 CodeRefs == (-1)..NC
